@@ -211,6 +211,31 @@ pub fn replay_net(case: &Value, rep: &mut Report) {
     }
     rep.nontrivial(key);
 
+    // the batched entry point is the same composition, once per input and in input order -- for every batch length
+    // (one evaluation chunk holds 64 inputs; 70 and 130 inputs leave a partial chunk)
+    if let Some(eval) = case["evals"].as_array().and_then(|a| a.first()) {
+        let x = spec_value_tensor(&eval["x"]);
+        for count in [1usize, 70, 130] {
+            let xs: Vec<Tensor> = (0..count)
+                .map(|k| {
+                    let v: Vec<f32> = flat(&x).iter().map(|a| a + (k % 5) as f32).collect();
+                    match &x.data {
+                        neurons::tensor::Data::Single(_) => Tensor::single(v),
+                        _ => crate::tensors::triple_rowmajor(&data_dims(&x.data), &v),
+                    }
+                })
+                .collect();
+            let refs: Vec<&Tensor> = xs.iter().collect();
+            rep.checks += 1;
+            if let Ok(batch) = guarded(|| net.predict_batch(&refs)) {
+                let same = batch.len() == count && (0..count).all(|k| nets::tensor_bits(&batch[k]) == nets::tensor_bits(&net.predict(refs[k])));
+                if !same {
+                    rep.mismatch("C02", "predict_batch_is_not_predict_per_input", &id, json!({"inputs": count, "returned": batch.len()}), case);
+                    break;
+                }
+            }
+        }
+    }
     for eval in case["evals"].as_array().unwrap() {
         let x = spec_value_tensor(&eval["x"]);
         rep.checks += 1;
